@@ -38,12 +38,17 @@ def gen_hostile(rng, framer, units, single, other_pdus=None):
     hosted = [u for u, _ in units]
     uid_pool = hosted + hosted + [0, 255, rng.randrange(256)]
     chunks, kinds = [], []
+    last_valid = None
     n = rng.choice([1, 2, 3, 5, 8, 14])
     inert_only = rng.random() < 0.15 and framer != 'ascii'
     for _ in range(n):
         uid = rng.choice(uid_pool)
         layout = dict(units).get(uid, units[0][1])
         tid = rng.randrange(65536)
+        glue = False
+        if framer == 'tcp' and last_valid is not None and rng.random() < 0.3:
+            # a transaction id that equals a checksum of the frame in front, pipelined in the same read
+            tid, glue = serverlib.lookalike_tid(rng, last_valid), True
         kind = rng.choice(['random', 'valid-write', 'valid-other', 'trunc-pdu', 'long-pdu', 'bad-count', 'zero-pdu',
                            'len-field', 'bitflip', 'unknown-sub', 'random', 'valid-write', 'inconsistent'])
         if inert_only:
@@ -101,7 +106,9 @@ def gen_hostile(rng, framer, units, single, other_pdus=None):
             c = serverlib.frame_pdu(framer, rng.choice(UNKNOWN_SUB), uid, tid)
         if framer == 'binary' and kind in ('valid-write', 'valid-other') and framelib.has_delim(c):
             kind = 'binary-delims'
-        if rng.random() < 0.15 and chunks and len(chunks[-1]) + len(c) < 600:
+        if glue and kind not in ('valid-write', 'valid-other'):
+            glue = False
+        if (glue or rng.random() < 0.15) and chunks and len(chunks[-1]) + len(c) < 600 and not (glue and kinds[-1].endswith(':split')):
             chunks[-1] = chunks[-1] + c          # several frames (good and bad) in one read / datagram
             kinds[-1] = kinds[-1] + '+' + kind
         elif rng.random() < 0.2 and len(c) > 1:
@@ -111,6 +118,7 @@ def gen_hostile(rng, framer, units, single, other_pdus=None):
         else:
             chunks.append(c)
             kinds.append(kind)
+        last_valid = list(c) if (framer == 'tcp' and kind in ('valid-write', 'valid-other') and not kinds[-1].endswith(':split')) else None
     return chunks, kinds, inert_only
 
 
